@@ -46,6 +46,7 @@ type Engine struct {
 	stopOnViolation bool
 	mergeStats int
 	tier string
+	uniq map[string]int
 	ifShapes map[*ssa.If]*ifShape
 	noIfConv bool
 	ifConverted int
